@@ -433,7 +433,7 @@ class C37(core.Prop):
     id = "C37"
     drivers = ["mpi_interp", "smpi_replay_driver"]
     ready = True
-    sizes = {"quick": 300, "thorough": 12000}
+    sizes = {"quick": 280, "thorough": 12000}
     max_workers = 6
     technique = ("property-based testing (Hypothesis), differential: generated MPI programs run online with time-independent tracing, then "
                  "their trace replayed (smpi_replay_init/main with an overridden finalize action); per-rank end dates and final date compared")
@@ -448,7 +448,11 @@ class C37(core.Prop):
             "(smpi_replay_init + own `finalize` action + smpi_replay_main, the documented override-the-replayer pattern) on the same "
             "platform, hosts and configuration. Oracle: for every rank the date of its finalize action equals the online date, and the "
             "final simulated dates are equal (relative 1e-9). A program that does not run online (deadlock, crash of a collective "
-            "algorithm: C29) is out of the domain (counted as invalid). Messages use distinct tags and distinct buffer regions; waitall "
+            "algorithm: C29) is out of the domain (counted as invalid). The messages of a p2p phase use distinct tags; a BURST step sends "
+            "2..4 messages with the SAME (source, destination, tag) and sizes several decades apart (1 B..1 MB, below and above the eager "
+            "and rendez-vous thresholds), at least one side non-blocking, completed by MPI_Waitall or by individual MPI_Wait in posting "
+            "order (reverse / rotated order in 1 case out of 6: known finding) with, between two waits, a small send to a third rank "
+            "that receives it or a collective executed once by every rank. Distinct buffer regions; waitall "
             "always covers every pending request of the rank (the trace format has no other form); collectives run on MPI_COMM_WORLD (the "
             "trace does not name the communicator). Non-trivial: at least one non-blocking request completed by a later wait and at "
             "least one collective. Distinct = canonical JSON of the case.")
